@@ -1,9 +1,17 @@
-"""Fork-based parallel map returning picklable per-item results."""
+"""Fork-based parallel map returning picklable per-item results.
+
+Every item has a HARD wall-clock limit enforced from outside the worker: z3's own `timeout` is cooperative and some of its routines
+(nlsat's polynomial gcd / factorisation) do not look at it, and SIGALRM handlers only run once the interpreter is back from the C call.
+A worker that sits on one item for longer than the limit is killed, the item is reported as {"error": "timeout ..."} (which every
+check records as inconclusive or as a harness error, never as discharged), and a fresh worker carries on with the rest.
+"""
 from __future__ import annotations
 
 import multiprocessing as mp
 import os
 import signal
+import threading
+import time
 import traceback
 
 
@@ -25,24 +33,50 @@ def with_timeout(fn, secs, *a, **kw):
         signal.signal(signal.SIGALRM, old)
 
 
+def hard_limit_s():
+    """per-item hard limit in seconds: VERIF_HARD_ITEM_S, else 600 (quick) / 2400 (thorough)"""
+    v = os.environ.get("VERIF_HARD_ITEM_S")
+    if v:
+        return float(v)
+    return 2400.0 if os.environ.get("VERIF_TIER_RUNNING") == "thorough" else 600.0
+
+
 _FN = None
+_ITEMS = None
+
+
+def _one(it):
+    try:
+        return _FN(it)
+    except ItemTimeout:
+        return {"item": repr(it)[:200], "error": "timeout"}
+    except Exception:
+        return {"item": repr(it)[:200], "error": traceback.format_exc()[-1200:]}
 
 
 def _call(chunk):
-    out = []
-    for it in chunk:
-        try:
-            out.append(_FN(it))
-        except ItemTimeout:
-            out.append({"item": repr(it)[:200], "error": "timeout"})
-        except Exception:
-            out.append({"item": repr(it)[:200], "error": traceback.format_exc()[-1200:]})
-    return out
+    return [_one(it) for it in chunk]
 
 
-def pmap(fn, items, procs=None, chunk=None, init=None):
+def _worker(wid, conn, init):
+    try:
+        if init:
+            init()
+        while True:
+            idxs = conn.recv()
+            if idxs is None:
+                return
+            for i in idxs:
+                conn.send(("start", wid, i, None))  # Pipe.send is synchronous: nothing is lost if the worker dies later
+                conn.send(("done", wid, i, _one(_ITEMS[i])))
+            conn.send(("idle", wid, None, None))
+    except (EOFError, KeyboardInterrupt):
+        return
+
+
+def pmap(fn, items, procs=None, chunk=None, init=None, hard_s=None):
     """fn(item) -> picklable; runs in forked workers. Results in order."""
-    global _FN
+    global _FN, _ITEMS
     items = list(items)
     procs = procs or min(16, os.cpu_count() or 4)
     if len(items) == 0:
@@ -52,9 +86,157 @@ def pmap(fn, items, procs=None, chunk=None, init=None):
         if init:
             init()
         return _call(items)
+    _ITEMS = items
+    hard_s = hard_s or hard_limit_s()
     chunk = chunk or max(1, min(50, len(items) // (procs * 4) or 1))
-    chunks = [items[i:i + chunk] for i in range(0, len(items), chunk)]
+    pending = [list(range(i, min(i + chunk, len(items)))) for i in range(0, len(items), chunk)]
+    pending.reverse()  # pop() takes the first chunk
     ctx = mp.get_context("fork")
-    with ctx.Pool(procs, initializer=init) as pool:
-        res = pool.map(_call, chunks, chunksize=1)
-    return [r for ch in res for r in ch]
+    results = [None] * len(items)
+    done = 0
+    workers = {}  # wid -> dict(proc, conn, assigned (list of idx not yet done), current, t0)
+    next_wid = [0]
+
+    def spawn():
+        wid = next_wid[0]
+        next_wid[0] += 1
+        pc, cc = ctx.Pipe()
+        p = ctx.Process(target=_worker, args=(wid, cc, init), daemon=True)
+        p.start()
+        cc.close()
+        workers[wid] = {"proc": p, "conn": pc, "assigned": [], "current": None, "t0": None}
+        return wid
+
+    def feed(wid):
+        w = workers[wid]
+        if pending:
+            w["assigned"] = list(pending.pop())
+            w["current"], w["t0"] = None, time.time()
+            w["conn"].send(w["assigned"])
+        else:
+            try:
+                w["conn"].send(None)
+            except (BrokenPipeError, OSError):
+                pass
+            w["assigned"] = []
+
+    def retire(wid, why):
+        """kill the worker; the item it was on gets `why`, the rest of its chunk goes back to the pending list"""
+        nonlocal done
+        w = workers.pop(wid)
+        try:
+            w["proc"].kill()
+        except Exception:
+            pass
+        w["proc"].join(5)
+        rest = list(w["assigned"])
+        cur = w["current"]
+        if cur is None and rest:
+            cur = rest[0]
+        if cur is not None and results[cur] is None:
+            results[cur] = {"item": repr(items[cur])[:200], "error": why}
+            done += 1
+        rest = [i for i in rest if i != cur and results[i] is None]
+        if rest:
+            pending.append(rest)
+
+    def handle(msg):
+        nonlocal done
+        kind, wid, i, r = msg
+        if wid not in workers:
+            if kind == "done" and results[i] is not None and isinstance(results[i], dict) and "died" in str(results[i].get("error", "")):
+                results[i] = r  # the answer of a worker already retired arrived late: keep the real answer
+            return
+        w = workers[wid]
+        if kind == "start":
+            w["current"], w["t0"] = i, time.time()
+        elif kind == "done":
+            if results[i] is None:
+                results[i] = r
+                done += 1
+            if i in w["assigned"]:
+                w["assigned"].remove(i)
+            w["current"], w["t0"] = None, time.time()
+        elif kind == "idle":
+            feed(wid)
+
+    def drain(block_s):
+        from multiprocessing.connection import wait
+        while True:
+            conns = {w["conn"]: wid for wid, w in workers.items() if not w.get("eof")}
+            ready = wait(list(conns), timeout=block_s) if conns else []
+            if not ready:
+                return
+            for c in ready:
+                try:
+                    handle(c.recv())
+                except (EOFError, OSError):
+                    wid = conns[c]
+                    if wid in workers and not workers[wid]["assigned"]:
+                        workers.pop(wid)["proc"].join(1)
+                    elif wid in workers:
+                        workers[wid]["eof"] = True
+            block_s = 0
+
+    for _ in range(min(procs, len(pending))):
+        feed(spawn())
+    while done < len(items):
+        drain(1.0)
+        now = time.time()
+        for wid in list(workers):
+            w = workers[wid]
+            if not w["assigned"]:
+                continue
+            if w.get("eof") or not w["proc"].is_alive():
+                retire(wid, "worker process died (killed or crashed) while on this item")
+            elif w["t0"] is not None and now - w["t0"] > hard_s:
+                cur_ = w["current"] if w["current"] is not None else (w["assigned"][0] if w["assigned"] else None)
+                what_ = repr(items[cur_])[:140] if cur_ is not None else "?"
+                retire(wid, f"timeout: hard limit of {hard_s:.0f} s per item reached (the solver did not return); worker killed; item {what_}")
+            else:
+                continue
+            if pending:
+                feed(spawn())
+        if not any(w["assigned"] for w in workers.values()) and pending:
+            feed(spawn())
+    for wid in list(workers):
+        w = workers.pop(wid)
+        try:
+            w["conn"].send(None)
+        except Exception:
+            pass
+        w["proc"].join(2)
+        if w["proc"].is_alive():
+            w["proc"].kill()
+    return results
+
+
+_WATCH = {"t0": None, "what": ""}
+
+
+def main_watchdog(limit_s=None):
+    """for code that queries the solver in the MAIN process: a daemon thread that ends the run with exit status 2 (harness error, never
+    'held') if one guarded section lasts longer than the hard limit.  Use `with guarded("what"):` around solver calls."""
+    limit_s = limit_s or 3 * hard_limit_s()
+
+    def loop():
+        while True:
+            time.sleep(5)
+            t0 = _WATCH["t0"]
+            if t0 is not None and time.time() - t0 > limit_s:
+                print(f"HARNESS-ERROR: {_WATCH['what']}: no return from the solver within {limit_s:.0f} s (hard limit); giving up", flush=True)
+                os._exit(2)
+    threading.Thread(target=loop, daemon=True).start()
+
+
+class guarded:
+
+    def __init__(self, what):
+        self.what = what
+
+    def __enter__(self):
+        _WATCH["t0"], _WATCH["what"] = time.time(), self.what
+
+    def __exit__(self, *a):
+        _WATCH["t0"] = None
+        return False
